@@ -32,9 +32,10 @@ def h1(sizes):
     for s in sizes:
         for rk, rn in ((1, "req"), (2, "cnf"), (3, "both")):
             for ck in (0, -1):
-                out.append(I("s%d_%s_c%s" % (s, rn, "x" if ck < 0 else ck), "CACHE_S=%d" % s, "REQ_KIND=%d" % rk, "CONF_KIND=%d" % ck))
-    out.append(I("s3_req_c0_ext", "CACHE_S=3", "REQ_KIND=1", "CONF_KIND=0", "EXT_FLAVOUR=1"))
-    out.append(I("s3_both_cx_ext", "CACHE_S=3", "REQ_KIND=3", "CONF_KIND=-1", "EXT_FLAVOUR=1"))
+                # kind first: known-finding entries match by label PREFIX (cnf_*, both_* are the F9/F14 shapes)
+                out.append(I("%s_c%s_s%d" % (rn, "x" if ck < 0 else ck, s), "CACHE_S=%d" % s, "REQ_KIND=%d" % rk, "CONF_KIND=%d" % ck))
+    out.append(I("req_c0_s3_ext", "CACHE_S=3", "REQ_KIND=1", "CONF_KIND=0", "EXT_FLAVOUR=1"))
+    out.append(I("both_cx_s3_ext", "CACHE_S=3", "REQ_KIND=3", "CONF_KIND=-1", "EXT_FLAVOUR=1"))
     return out
 hs.append(H("h1_add", "h1_add.c",
             ["asyncClient_addAggregatorRequest", "asyncClient_addExtenderRequest", "addRequest", "asyncClient_calculateRequestId", "asyncClient_composeRequestHeader", "KSI_AbstractAsyncClient_new", "asyncClient_setOption", "KSI_AbstractAsyncHandle_new", "KSI_AsyncHandle_free"],
@@ -92,15 +93,32 @@ hs.append(H("h7_queue", "h7_queue.c",
             restrict_fp=["asyncClient_handleServerConfig.function_pointer_call.1/KSI_Config_free"]))
 
 # ---- H-8 bounded history
+def hclass(s, ops):
+    """which known defect a history can run into (label prefix, used by known-finding entries):
+    f9  = two configuration-bearing submissions (the second may overwrite the first, F9)
+    f14 = a configuration-bearing submission that may not fit the cache any more (configuration handles are not
+          checked against the cache size, F14): needs 1 place (op 2) or 2 places (op 3)
+    plain = neither"""
+    cfg = [i for i, o in enumerate(ops) if o in (2, 3)]
+    if len(cfg) >= 2:
+        return "f9"
+    for i in cfg:
+        before = sum(1 if o in (1, 2) else 2 if o == 3 else 0 for o in ops[:i])     # handles possibly still outstanding
+        need = 2 if ops[i] == 3 else 1
+        if before + need > s - 1:
+            return "f14"
+    return "plain"
+
+
 def seq(label, s, ops, *extra):
     o = list(ops) + [0] * (6 - len(ops))
-    return I(label, "CACHE_S=%d" % s, "NOPS=%d" % len(ops), "OPS={%s}" % ",".join(map(str, o)), *extra)
+    return I(hclass(s, ops) + "_" + label, "CACHE_S=%d" % s, "NOPS=%d" % len(ops), "OPS={%s}" % ",".join(map(str, o)), *extra)
 h8q = [seq("s2_144", 2, (1, 4, 4), "EXPECT_RESPONSE=1", "EXPECT_TIMEOUT=1"), seq("s2_114", 2, (1, 1, 4), "EXPECT_REFUSAL=1"),
        seq("s2_1441", 2, (1, 4, 4, 1), "EXPECT_REUSE=1"), seq("s2_244", 2, (2, 4, 4)), seq("s2_154", 2, (1, 5, 4)),
        seq("s2_121", 2, (1, 2, 1)), seq("s2_151", 2, (1, 5, 1)), seq("s2_224", 2, (2, 2, 4)), seq("s2_314", 2, (3, 1, 4)), seq("s3_344", 3, (3, 4, 4))]
 h8t = list(h8q) + [seq("s3_1144", 3, (1, 1, 4, 4), "EXPECT_RESPONSE=1"), seq("s3_1414", 3, (1, 4, 1, 4)), seq("s2_4144", 2, (4, 1, 4, 4), "EXPECT_RESPONSE=1"),
                    seq("s3_2144", 3, (2, 1, 4, 4))]
-seen = set(i["label"] for i in h8t)
+seen = set(i["label"].split("_", 1)[1] for i in h8t)
 for ops in itertools.product((1, 2, 3, 4), repeat=3):
     lab = "s2_" + "".join(map(str, ops))
     if lab not in seen:
@@ -144,8 +162,9 @@ plan = {
                 "nothing retained on refusal), reply matching (only the WAITING_FOR_RESPONSE handle with the same full 64-bit id changes; unknown/stale-generation/duplicate/early replies change nothing), configuration delivery, error fan-out, "
                 "finalisation (returned at most once, only in a final state, timeouts only after the configured time or with timeout 0, nothing finished left behind), one service round (errors only with the cause that occurred, waiting = pending + received) and "
                 "batch processing of <= 2 raw responses (nothing applied from unparsable/unauthenticated data). A bounded-history harness drives 3-4 public operations from the constructors with an exactly-once monitor. "
-                "On the unchanged tree the check FAILS: F9 (second configuration request drops the first handle, pending drifts) and F14 (configuration handles are not counted by the cache-full test; "
-                "outstanding exceeds the cache size and the next KSI_AsyncService_addRequest loops forever) - see FINDINGS.md; with the proposed patches every harness passes.",
+                "Defects found: F14 (the cache-full test used == on a count that configuration handles can push past the cache size: the next KSI_AsyncService_addRequest looped forever) - the loop is repaired in /repo (a60d80b); "
+                "F9 (a second configuration request drops the first handle, pending drifts) and the counting part of F14 (configuration handles are accepted without a room check, outstanding can exceed the cache size by one) are recorded as known findings "
+                "(harness/C13/known_entries.json; they affect only instances labelled cnf_*/both_* of h1_add and f9_*/f14_* of h8_history) - see FINDINGS.md; with the full proposed patch every harness passes without exceptions.",
   "level_note": "Trusted base: payload-object, PDU-layer, status-conversion, transport and clock models M1-M5 (plan.json assumptions); aggregator flavour throughout, extender flavour in three instances. "
                 "Outside: cache sizes > 4, histories > 4 operations, real transports (TCP is C14), TLV/HMAC/signature building, allocation failure, eventual return of a handle on which the transport stays silent. "
                 "The step from the bounded cache sizes to arbitrary ones rests on the code being uniform in the size (by reading, not proved)."
